@@ -1013,6 +1013,15 @@ func (s *Spec) stateOracles(e *Exec, t, r []string) {
 // (or never accepted): "an object deleted while its write is pending never appears on disk
 // afterwards" (C10), and the stored objects are exactly the accepted ones (C01). Only judged when
 // no fault, crash or outside modification of the directory happened in the history.
+// canonU: "U<n>" of a canonical entry name "U<n><suffix>" (the suffix never starts with a digit)
+func canonU(name string) string {
+	i := 1
+	for i < len(name) && name[i] >= '0' && name[i] <= '9' {
+		i++
+	}
+	return name[:i]
+}
+
 func (s *Spec) noGhostFile(e *Exec) {
 	if s.off || s.faulted || s.crashCtx != "" || s.mute {
 		return
@@ -1020,10 +1029,7 @@ func (s *Spec) noGhostFile(e *Exec) {
 	for _, l := range e.obs {
 		f := strings.Fields(l)
 		if len(f) >= 3 && f[0] == "s" && f[1] == "file" && strings.HasPrefix(f[2], "U") {
-			name := f[2]
-			if i := strings.IndexByte(name, '.'); i >= 0 {
-				name = name[:i]
-			}
+			name := canonU(f[2])
 			u, err := strconv.Atoi(name[1:])
 			if err != nil {
 				continue
@@ -1053,10 +1059,7 @@ func (s *Spec) flushedInTime(e *Exec) {
 	for _, l := range e.obs {
 		f := strings.Fields(l)
 		if len(f) >= 3 && f[0] == "s" && f[1] == "file" && strings.HasPrefix(f[2], "U") {
-			name := f[2]
-			if i := strings.IndexByte(name, '.'); i >= 0 {
-				name = name[:i]
-			}
+			name := canonU(f[2])
 			if u, err := strconv.Atoi(name[1:]); err == nil {
 				have[u] = true
 			}
@@ -1095,10 +1098,7 @@ func (s *Spec) committed(e *Exec) {
 	for _, l := range e.obs {
 		f := strings.Fields(l)
 		if len(f) >= 3 && f[0] == "s" && f[1] == "file" && strings.HasPrefix(f[2], "U") {
-			name := f[2]
-			if i := strings.IndexByte(name, '.'); i >= 0 {
-				name = name[:i]
-			}
+			name := canonU(f[2])
 			if u, err := strconv.Atoi(name[1:]); err == nil {
 				have[u] = true
 			}
